@@ -87,110 +87,127 @@ struct Tally { unsigned long skipped_contract, probed; Tally() : skipped_contrac
 inline void flush_tally(const Tally& t) { if (t.skipped_contract) hx::count("skipped.outside_policy_contract", t.skipped_contract); }
 
 // Does operand pair (x, y) of operation Op on kind N need the forked probe?  (specialised in the TUs where UB was observed)
-template <typename N, typename Op> struct Risky { template <typename A, typename B> static bool bin(const A&, const B&, const XQ&, const XQ&) { return false; } static bool un(const XQ&) { return false; } static bool e2(const XQ&, unsigned) { return false; } };
+template <typename N, typename Op> struct Risky { static bool bin(const XQ&, const XQ&) { return false; } static bool un(const XQ&) { return false; } static bool e2(const XQ&, unsigned) { return false; } };
 
 // ---------------------------------------------------------------- enumerators
-template <typename N, typename Op>
-inline void run_binary(const std::vector<N>& xs, const std::vector<N>& ys, bool try_not_needed = true) {
+// The enumerators are templates on the number kind N only; the operation comes in as a small table of function
+// pointers (thunks instantiated per (N, Op)), which keeps the number of heavy template instantiations low.
+template <typename N> struct BinVT { const char* name; Result (*call)(N&, const N&, const N&, Rounding_Dir); Ex (*exact)(const XQ&, const XQ&); bool (*risky)(const XQ&, const XQ&); };
+template <typename N> struct UnVT { const char* name; Result (*call)(N&, const N&, Rounding_Dir); Ex (*exact)(const XQ&); bool (*risky)(const XQ&); };
+template <typename N> struct E2VT { const char* name; Result (*call)(N&, const N&, unsigned, Rounding_Dir); Ex (*exact)(const XQ&, unsigned); bool (*risky)(const XQ&, unsigned); };
+template <typename N> struct FuVT { const char* name; bool sub; Result (*call)(N&, const N&, const N&, Rounding_Dir); };
+template <typename N, typename Op> inline BinVT<N> binvt() { BinVT<N> v = { Op::name(), &Op::template call<N, N, N>, &Op::exact, &Risky<N, Op>::bin }; return v; }
+template <typename N, typename Op> inline UnVT<N> unvt() { UnVT<N> v = { Op::name(), &Op::template call<N, N>, &Op::exact, &Risky<N, Op>::un }; return v; }
+template <typename N, typename Op> inline E2VT<N> e2vt() { E2VT<N> v = { Op::name(), &Op::template call<N, N>, &Op::exact, &Risky<N, Op>::e2 }; return v; }
+template <typename N, typename Op> inline FuVT<N> fuvt() { FuVT<N> v = { Op::name(), Op::sub, &Op::template call<N, N, N> }; return v; }
+
+template <typename N>
+void run_binary_vt(const BinVT<N>& op, const std::vector<N>& xs, const std::vector<N>& ys, bool try_not_needed) {
   typedef Kind<N> K; typedef typename K::TP P; typedef typename K::raw_t T;
-  Site s = { Op::name(), tname<N>(), K::pol() };
+  Site s = { op.name, tname<N>(), K::pol() };
+  const bool is_div = strcmp(op.name, "div") == 0, is_idiv = strcmp(op.name, "idiv") == 0, is_rem = strcmp(op.name, "rem") == 0;
   std::vector<XQ> dy; dy.reserve(ys.size()); for (size_t j = 0; j < ys.size(); ++j) dy.push_back(dec(ys[j]));
   Tally tl; unsigned long done = 0;
   for (size_t i = 0; i < xs.size(); ++i) {
     const XQ ax = dec(xs[i]);
     for (size_t j = 0; j < ys.size(); ++j) {
       const XQ& ay = dy[j];
-      Ex ex = Op::exact(ax, ay);
+      Ex ex = op.exact(ax, ay);
       if (!in_contract<P, T>(ex.u)) { ++tl.skipped_contract; continue; }
       std::string cl = res_class<N>(ex, ax.inf() || ay.inf());
-      if (ex.u == U_NONE && ay.fin() && ax.fin() && (strcmp(Op::name(), "div") == 0 || strcmp(Op::name(), "idiv") == 0 || strcmp(Op::name(), "rem") == 0) && (cl == "exact" || cl == "inexact"))
-        cl = std::string(::sgn(ay.q) < 0 ? "negative-divisor-" : "positive-divisor-") + (strcmp(Op::name(), "div") == 0 ? (ex.v.q.get_den() == 1 ? "exact" : "inexact") : (::sgn(ex_rem(ax, ay).v.q) == 0 ? "exact" : "inexact"));
+      if ((is_div || is_idiv || is_rem) && ex.u == U_NONE && ay.fin() && ax.fin() && (cl == "exact" || cl == "inexact"))
+        cl = std::string(::sgn(ay.q) < 0 ? "negative-divisor-" : "positive-divisor-") + (::sgn(ex_rem(ax, ay).v.q) == 0 ? "exact" : "inexact");
       const char* cls = intern(cl);
       Desc desc = desc2(ax, ay);
-      if (Risky<N, Op>::bin(xs[i], ys[j], ax, ay)) {
+      if (op.risky(ax, ay)) {
         std::string why; const N& x = xs[i]; const N& y = ys[j];
-        if (!survives([&]() { for (int d = 0; d < NDIRS; ++d) { N to = fresh<N>(); Op::call(to, x, y, DIRS[d].d); } }, why)) { probe_report(s, cls, desc(), why); continue; }
+        if (!survives([&]() { for (int d = 0; d < NDIRS; ++d) { N to = fresh<N>(); op.call(to, x, y, DIRS[d].d); } }, why)) { probe_report(s, cls, desc(), why); continue; }
       }
       int nd = NDIRS + ((try_not_needed && ex.u == U_NONE && representable<N>(ex.v)) ? 1 : 0);
       for (int d = 0; d < nd; ++d) {
         N to = fresh<N>(); junk(to);
         if (g_verbose()) fprintf(stderr, "op: %s<%s/%s>(%s, ROUND_%s)\n", s.op, s.type.c_str(), s.pol, desc().c_str(), DIRS[d].name);
-        Result r = Op::call(to, xs[i], ys[j], DIRS[d].d);
+        Result r = op.call(to, xs[i], ys[j], DIRS[d].d);
         verify<N>(s, DIRS[d].d, cls, r, to, ex, desc);
         ++done;
       }
     }
   }
-  flush_tally(tl); hx::count(std::string("op.") + Op::name(), done);
+  flush_tally(tl); hx::count(std::string("op.") + op.name, done);
 }
+template <typename N, typename Op> inline void run_binary(const std::vector<N>& xs, const std::vector<N>& ys, bool try_not_needed = true) { run_binary_vt<N>(binvt<N, Op>(), xs, ys, try_not_needed); }
 
-template <typename N, typename Op>
-inline void run_unary(const std::vector<N>& xs, bool try_not_needed = true) {
+template <typename N>
+void run_unary_vt(const UnVT<N>& op, const std::vector<N>& xs, bool try_not_needed) {
   typedef Kind<N> K; typedef typename K::TP P; typedef typename K::raw_t T;
-  Site s = { Op::name(), tname<N>(), K::pol() };
+  Site s = { op.name, tname<N>(), K::pol() };
+  const bool is_sqrt = strcmp(op.name, "sqrt") == 0;
   Tally tl; unsigned long done = 0;
   for (size_t i = 0; i < xs.size(); ++i) {
     const XQ ax = dec(xs[i]);
-    Ex ex = Op::exact(ax);
+    Ex ex = op.exact(ax);
     if (!in_contract<P, T>(ex.u)) { ++tl.skipped_contract; continue; }
     std::string cl = res_class<N>(ex, ax.inf());
-    if (strcmp(Op::name(), "sqrt") == 0 && ex.u == U_NONE && ax.fin()) {
+    if (is_sqrt && ex.u == U_NONE && ax.fin()) {
       const Lim& L = lim<N>();
       if (IsInt<T>::value && ax.q * 4 > L.hi + 1) cl = "radicand-top-quarter-" + cl;
       else if (std::is_same<T, Q>::value && ax.q < 1 && ::sgn(ax.q) > 0) cl = "radicand-below-one-" + cl;
     }
     const char* cls = intern(cl);
     Desc desc = desc1(ax);
-    if (Risky<N, Op>::un(ax)) {
+    if (op.risky(ax)) {
       std::string why; const N& x = xs[i];
-      if (!survives([&]() { for (int d = 0; d < NDIRS; ++d) { N to = fresh<N>(); Op::call(to, x, DIRS[d].d); } }, why)) { probe_report(s, cls, desc(), why); continue; }
+      if (!survives([&]() { for (int d = 0; d < NDIRS; ++d) { N to = fresh<N>(); op.call(to, x, DIRS[d].d); } }, why)) { probe_report(s, cls, desc(), why); continue; }
     }
     int nd = NDIRS + ((try_not_needed && ex.u == U_NONE && representable<N>(ex.v)) ? 1 : 0);
     for (int d = 0; d < nd; ++d) {
       N to = fresh<N>(); junk(to);
       if (g_verbose()) fprintf(stderr, "op: %s<%s/%s>(%s, ROUND_%s)\n", s.op, s.type.c_str(), s.pol, desc().c_str(), DIRS[d].name);
-      Result r = Op::call(to, xs[i], DIRS[d].d);
+      Result r = op.call(to, xs[i], DIRS[d].d);
       verify<N>(s, DIRS[d].d, cls, r, to, ex, desc);
       ++done;
     }
   }
-  flush_tally(tl); hx::count(std::string("op.") + Op::name(), done);
+  flush_tally(tl); hx::count(std::string("op.") + op.name, done);
 }
+template <typename N, typename Op> inline void run_unary(const std::vector<N>& xs, bool try_not_needed = true) { run_unary_vt<N>(unvt<N, Op>(), xs, try_not_needed); }
 
-template <typename N, typename Op>
-inline void run_2exp(const std::vector<N>& xs, const std::vector<unsigned>& exps) {
+template <typename N>
+void run_2exp_vt(const E2VT<N>& op, const std::vector<N>& xs, const std::vector<unsigned>& exps) {
   typedef Kind<N> K; typedef typename K::TP P; typedef typename K::raw_t T;
-  Site s = { Op::name(), tname<N>(), K::pol() };
+  Site s = { op.name, tname<N>(), K::pol() };
   Tally tl; unsigned long done = 0;
   for (size_t i = 0; i < xs.size(); ++i) {
     const XQ ax = dec(xs[i]);
     for (size_t j = 0; j < exps.size(); ++j) {
       unsigned e = exps[j];
-      Ex ex = Op::exact(ax, e);
+      if (!IsInt<T>::value && e > 100000) continue;    // exact 2^e would not fit in memory; floats additionally require e < 64 (entry PPL_ASSERT)
+      Ex ex = op.exact(ax, e);
       if (!in_contract<P, T>(ex.u)) { ++tl.skipped_contract; continue; }
       const char* cls = intern(exp_class<T>(e) + "," + (ax.fin() ? (::sgn(ax.q) < 0 ? "neg" : ::sgn(ax.q) > 0 ? "pos" : "zero") : "special") + "," + res_class<N>(ex, ax.inf()));
       Desc desc = desce(ax, e);
-      if (Risky<N, Op>::e2(ax, e)) {
+      if (op.risky(ax, e)) {
         std::string why; const N& x = xs[i];
-        if (!survives([&]() { for (int d = 0; d < NDIRS; ++d) { N to = fresh<N>(); Op::call(to, x, e, DIRS[d].d); } }, why)) { probe_report(s, cls, desc(), why); continue; }
+        if (!survives([&]() { for (int d = 0; d < NDIRS; ++d) { N to = fresh<N>(); op.call(to, x, e, DIRS[d].d); } }, why)) { probe_report(s, cls, desc(), why); continue; }
       }
       for (int d = 0; d < NDIRS; ++d) {
         N to = fresh<N>(); junk(to);
         if (g_verbose()) fprintf(stderr, "op: %s<%s/%s>(%s, ROUND_%s)\n", s.op, s.type.c_str(), s.pol, desc().c_str(), DIRS[d].name);
-        Result r = Op::call(to, xs[i], e, DIRS[d].d);
+        Result r = op.call(to, xs[i], e, DIRS[d].d);
         verify<N>(s, DIRS[d].d, cls, r, to, ex, desc);
         ++done;
       }
     }
   }
-  flush_tally(tl); hx::count(std::string("op.") + Op::name(), done);
+  flush_tally(tl); hx::count(std::string("op.") + op.name, done);
 }
+template <typename N, typename Op> inline void run_2exp(const std::vector<N>& xs, const std::vector<unsigned>& exps) { run_2exp_vt<N>(e2vt<N, Op>(), xs, exps); }
 
 // fused multiply-add/sub:  to (in/out), x, y
-template <typename N, typename Op>
-inline void run_fused(const std::vector<N>& accs, const std::vector<N>& xs, const std::vector<N>& ys) {
+template <typename N>
+void run_fused_vt(const FuVT<N>& op, const std::vector<N>& accs, const std::vector<N>& xs, const std::vector<N>& ys) {
   typedef Kind<N> K; typedef typename K::TP P; typedef typename K::raw_t T;
-  Site s = { Op::name(), tname<N>(), K::pol() };
+  Site s = { op.name, tname<N>(), K::pol() };
   std::vector<XQ> dy; for (size_t j = 0; j < ys.size(); ++j) dy.push_back(dec(ys[j]));
   std::vector<XQ> da; for (size_t j = 0; j < accs.size(); ++j) da.push_back(dec(accs[j]));
   Tally tl; unsigned long done = 0;
@@ -198,57 +215,70 @@ inline void run_fused(const std::vector<N>& accs, const std::vector<N>& xs, cons
     const XQ ax = dec(xs[i]);
     for (size_t j = 0; j < ys.size(); ++j) for (size_t k = 0; k < accs.size(); ++k) {
       const XQ& ay = dy[j]; const XQ& at = da[k];
-      Ex ex = ex_fused(at, ax, ay, Op::sub);
+      Ex ex = ex_fused(at, ax, ay, op.sub);
       if (!in_contract<P, T>(ex.u)) { ++tl.skipped_contract; continue; }
       const char* cls = intern(res_class<N>(ex, ax.inf() || ay.inf() || at.inf()));
       Desc desc = desc3(at, ax, ay);
       for (int d = 0; d < NDIRS; ++d) {
         N to = accs[k];
         if (g_verbose()) fprintf(stderr, "op: %s<%s/%s>(%s, ROUND_%s)\n", s.op, s.type.c_str(), s.pol, desc().c_str(), DIRS[d].name);
-        Result r = Op::call(to, xs[i], ys[j], DIRS[d].d);
+        Result r = op.call(to, xs[i], ys[j], DIRS[d].d);
         verify<N>(s, DIRS[d].d, cls, r, to, ex, desc);
         ++done;
       }
     }
   }
-  flush_tally(tl); hx::count(std::string("op.") + Op::name(), done);
+  flush_tally(tl); hx::count(std::string("op.") + op.name, done);
 }
+template <typename N, typename Op> inline void run_fused(const std::vector<N>& accs, const std::vector<N>& xs, const std::vector<N>& ys) { run_fused_vt<N>(fuvt<N, Op>(), accs, xs, ys); }
 
-// conversions  To <- From  through assign_r, construct() and (checked destinations) the rounding constructor
-template <typename To, typename From>
-inline void run_convert(const std::vector<From>& xs, bool do_construct = true) {
+// conversions  To <- From  through assign_r and construct(); core is a template on To only
+template <typename To> struct ConvSrc { const char* tname; const char* pol; size_t n; XQ (*dec_at)(const void*, size_t); Result (*assign)(To&, const void*, size_t, Rounding_Dir); Result (*construct)(To&, const void*, size_t, Rounding_Dir); const void* data; };
+template <typename To>
+void run_convert_core(const ConvSrc<To>& src, bool do_construct) {
   typedef Kind<To> K; typedef typename K::raw_t T;
-  std::string ty = std::string(tname<To>()) + "<-" + tname<From>();
-  std::string pol = std::string(K::pol()) + "<-" + Kind<From>::pol(); const char* polc = intern(pol);
+  std::string ty = std::string(tname<To>()) + "<-" + src.tname;
+  const char* polc = intern(std::string(K::pol()) + "<-" + src.pol);
   Site s = { "assign", ty, polc }; Site sc = { "construct", ty, polc };
   unsigned long done = 0;
-  for (size_t i = 0; i < xs.size(); ++i) {
-    const XQ ax = dec(xs[i]);
+  for (size_t i = 0; i < src.n; ++i) {
+    const XQ ax = src.dec_at(src.data, i);
     Ex ex = ex_id(ax);
     std::string cl = res_class<To>(ex, false);
-    if (ex.u == U_NONE && ax.fin() && (cl == "inexact") && IsInt<T>::value) cl = ::sgn(ax.q) < 0 ? "negative-fractional" : "positive-fractional";
+    if (ex.u == U_NONE && ax.fin() && cl == "inexact" && IsInt<T>::value) cl = ::sgn(ax.q) < 0 ? "negative-fractional" : "positive-fractional";
+    if (ex.u == U_NONE && ax.inf()) cl = "inf-operand";
     const char* cls = intern(cl);
     Desc desc = desc1(ax);
     int nd = NDIRS + ((ex.u == U_NONE && representable<To>(ex.v)) ? 1 : 0);
     for (int d = 0; d < nd; ++d) {
       { To to = fresh<To>(); junk(to);
         if (g_verbose()) fprintf(stderr, "op: assign<%s/%s>(%s, ROUND_%s)\n", ty.c_str(), polc, desc().c_str(), DIRS[d].name);
-        Result r = assign_r(to, xs[i], DIRS[d].d);
+        Result r = src.assign(to, src.data, i, DIRS[d].d);
         verify<To>(s, DIRS[d].d, cls, r, to, ex, desc); ++done; }
       if (do_construct) {
         typename std::aligned_storage<sizeof(To), alignof(To)>::type buf; To* p = reinterpret_cast<To*>(&buf);
         if (g_verbose()) fprintf(stderr, "op: construct<%s/%s>(%s, ROUND_%s)\n", ty.c_str(), polc, desc().c_str(), DIRS[d].name);
-        Result r = construct(*p, xs[i], DIRS[d].d);
+        Result r = src.construct(*p, src.data, i, DIRS[d].d);
         verify<To>(sc, DIRS[d].d, cls, r, *p, ex, desc); ++done;
         p->~To(); }
     }
   }
   hx::count("op.assign", done);
 }
+template <typename To, typename From> struct ConvThunk {
+  static XQ dec_at(const void* d, size_t i) { return dec((*static_cast<const std::vector<From>*>(d))[i]); }
+  static Result assign(To& t, const void* d, size_t i, Rounding_Dir dir) { return assign_r(t, (*static_cast<const std::vector<From>*>(d))[i], dir); }
+  static Result cons(To& t, const void* d, size_t i, Rounding_Dir dir) { return construct(t, (*static_cast<const std::vector<From>*>(d))[i], dir); }
+};
+template <typename To, typename From>
+inline void run_convert(const std::vector<From>& xs, bool do_construct = true) {
+  ConvSrc<To> src = { tname<From>(), Kind<From>::pol(), xs.size(), &ConvThunk<To, From>::dec_at, &ConvThunk<To, From>::assign, &ConvThunk<To, From>::cons, &xs };
+  run_convert_core<To>(src, do_construct);
+}
 
 // special values:  assign_r(to, PLUS_INFINITY | MINUS_INFINITY | NOT_A_NUMBER, dir)
 template <typename To>
-inline void run_specials() {
+void run_specials() {
   typedef Kind<To> K; typedef typename K::TP P;
   Site s = { "assign_special", tname<To>(), K::pol() };
   for (int d = 0; d < NDIRS; ++d) for (int w = 0; w < 3; ++w) {
@@ -266,32 +296,39 @@ inline void run_specials() {
   hx::count("op.assign_special", 3 * NDIRS);
 }
 
-// comparisons between kinds A and B
-template <typename A, typename B>
-inline void run_compare(const std::vector<A>& xs, const std::vector<B>& ys) {
-  std::string ty = std::string(tname<A>()) + "," + tname<B>(); std::string pol = std::string(Kind<A>::pol()) + "," + Kind<B>::pol();
-  std::vector<XQ> dy; for (size_t j = 0; j < ys.size(); ++j) dy.push_back(dec(ys[j]));
+// comparisons between kinds A and B (core is not a template)
+struct CmpOut { bool p[6]; int c; };
+inline void run_compare_core(const std::string& ty, const std::string& pol, const char* tnA, const std::string& knA, const std::vector<XQ>& dx, const std::vector<XQ>& dy,
+                             const std::function<CmpOut(size_t, size_t, bool)>& f, const std::function<int(size_t)>& sg) {
   static const char* const NM[6] = { "equal", "not_equal", "less_than", "less_or_equal", "greater_than", "greater_or_equal" };
   unsigned long done = 0;
-  for (size_t i = 0; i < xs.size(); ++i) {
-    const XQ ax = dec(xs[i]);
-    for (size_t j = 0; j < ys.size(); ++j) {
+  for (size_t i = 0; i < dx.size(); ++i) {
+    const XQ& ax = dx[i];
+    for (size_t j = 0; j < dy.size(); ++j) {
       const XQ& ay = dy[j]; int c = xcmp(ax, ay);
       if (g_verbose()) fprintf(stderr, "op: compare<%s/%s>(%s, %s)\n", ty.c_str(), pol.c_str(), show(ax).c_str(), show(ay).c_str());
-      bool got[6] = { equal(xs[i], ys[j]), not_equal(xs[i], ys[j]), less_than(xs[i], ys[j]), less_or_equal(xs[i], ys[j]), greater_than(xs[i], ys[j]), greater_or_equal(xs[i], ys[j]) };
+      CmpOut o = f(i, j, c != 2);
       bool want[6] = { c == 0, c != 0, c == -1, c == -1 || c == 0, c == 1, c == 1 || c == 0 };
       const char* cls = c == 2 ? "nan-operand" : (ax.inf() || ay.inf()) ? "inf-operand" : c == 0 ? "equal" : "different";
-      for (int k = 0; k < 6; ++k) { hx::checked(); ++done;
-        if (got[k] != want[k]) hx::violation(std::string("C11.rel.") + NM[k] + "." + ty + ":" + cls, std::string(NM[k]) + "<" + ty + "/" + pol + ">(" + show(ax) + ", " + show(ay) + ") returned " + (got[k] ? "true" : "false")); }
-      if (c != 2) {
-        hx::checked(); ++done; int g = cmp(xs[i], ys[j]);
-        if ((g > 0) - (g < 0) != c) hx::violation(std::string("C11.rel.cmp.") + ty + ":" + cls, "cmp<" + ty + "/" + pol + ">(" + show(ax) + ", " + show(ay) + ") returned " + std::to_string(g));
-      }
+      hx::checked(6); done += 6;
+      for (int k = 0; k < 6; ++k)
+        if (o.p[k] != want[k]) hx::violation(std::string("C11.rel.") + NM[k] + "." + ty + ":" + cls, std::string(NM[k]) + "<" + ty + "/" + pol + ">(" + show(ax) + ", " + show(ay) + ") returned " + (o.p[k] ? "true" : "false"));
+      if (c != 2) { hx::checked(); ++done;
+        if ((o.c > 0) - (o.c < 0) != c) hx::violation(std::string("C11.rel.cmp.") + ty + ":" + cls, "cmp<" + ty + "/" + pol + ">(" + show(ax) + ", " + show(ay) + ") returned " + std::to_string(o.c)); }
     }
-    if (!ax.nan()) { hx::checked(); ++done; int g = sgn(xs[i]); int w = ax.sgn(); if (g != w) hx::violation(std::string("C11.rel.sgn.") + tname<A>() + ":" + (ax.inf() ? "inf-operand" : "finite"), "sgn<" + kname<A>() + ">(" + show(ax) + ") returned " + std::to_string(g)); }
+    if (!ax.nan()) { hx::checked(); ++done; int g = sg(i); int w = ax.sgn(); if (g != w) hx::violation(std::string("C11.rel.sgn.") + tnA + ":" + (ax.inf() ? "inf-operand" : "finite"), "sgn<" + knA + ">(" + show(ax) + ") returned " + std::to_string(g)); }
   }
   hx::count("op.compare", done);
   static std::unordered_set<uint64_t> seen; uint64_t h = hx::fnv(ty + pol); if (seen.insert(h).second) hx::distinct("compare|" + ty + "|" + pol);
+}
+template <typename A, typename B>
+inline void run_compare(const std::vector<A>& xs, const std::vector<B>& ys) {
+  std::vector<XQ> dx, dy; for (size_t i = 0; i < xs.size(); ++i) dx.push_back(dec(xs[i])); for (size_t j = 0; j < ys.size(); ++j) dy.push_back(dec(ys[j]));
+  run_compare_core(std::string(tname<A>()) + "," + tname<B>(), std::string(Kind<A>::pol()) + "," + Kind<B>::pol(), tname<A>(), kname<A>(), dx, dy,
+    [&](size_t i, size_t j, bool ordered) { CmpOut o; const A& x = xs[i]; const B& y = ys[j];
+      o.p[0] = equal(x, y); o.p[1] = not_equal(x, y); o.p[2] = less_than(x, y); o.p[3] = less_or_equal(x, y); o.p[4] = greater_than(x, y); o.p[5] = greater_or_equal(x, y);
+      o.c = ordered ? cmp(x, y) : 0; return o; },
+    [&](size_t i) { return sgn(xs[i]); });
 }
 
 } // namespace nk
